@@ -49,6 +49,13 @@ def run(prog, rep, tier):
     nx = [c for c in b.live_calls() if c.o.endswith("Iterator::next") and "jwalk" in (c.callee.get("self") or "")]
     if not nx:
         raise CheckerError("process_path: walk loop not found")
+    # the loop consumes the walker itself: an adapter that can end the iteration early (map_while,
+    # take_while, scan, take ...) between the walker and the loop drops every entry after its first stop
+    adapt = [c for c in nx if not (c.callee.get("self") or "").startswith("jwalk::")]
+    rep.examined(R151, PP + "|walk-loop-iterator", sample={"next_receiver_types": [(c.callee.get("self") or "")[:80] for c in nx]})
+    if adapt:
+        rep.violation(R151, PP + "|walk-loop-iterator", "process_path: the walk loop iterates %s, not the walker itself; an adapter such as map_while/take_while ends the walk at the first entry it rejects "
+                      "(one unreadable entry or dangling link in a sub-directory silently drops every directory walked after it)" % (adapt[0].callee.get("self") or "")[:100])
     wl = [h for h in hdrs if nx[0].bb in b.loop_blocks(h)]
     L = b.loop_blocks(min(wl, key=lambda h: len(b.loop_blocks(h))))
     isf = [c for c in b.live_calls() if c.bb in L and c.d.endswith("fs::FileType::is_file")]
@@ -182,6 +189,27 @@ def run(prog, rep, tier):
     revs = [c for c in cb.live_calls() if c.o.split("::")[-1] in ("rev", "sort", "sort_unstable", "dedup", "reverse", "sort_by") and "String" in (c.callee.get("self") or c.f)]
     if revs:
         rep.violation(R153, cb.path + "|reorder", "cli_process_args: the path list is reordered (%s)" % [c.o for c in revs])
+
+    # ------------------------------------------------------------ R15.4 links are followed everywhere or nowhere
+    # The walk follows symbolic links (R15.1) and explicit paths are opened through them; every size or
+    # kind test on a path must look at the target too.  `symlink_metadata()` looks at the link itself
+    # (its length is the length of the target *string*): the "file too small" pre-check then dismisses
+    # `cur -> a.log` as a 5-byte file.
+    R154 = rep.rule("R15.4", "no path test looks at a symbolic link itself (symlink_metadata) where links are followed")
+    nsm = 0
+    for p_ in ("s4::processing_loop", "s4lib::readers::filepreprocessor::process_path", "s4lib::readers::filepreprocessor::process_path_tar"):
+        fb_ = prog.body(p_, required=False)
+        if fb_ is None:
+            continue
+        md = [c for c in fb_.live_calls() if c.d.split("::")[-1] in ("metadata", "symlink_metadata") and ("Path" in c.d or "fs::" in c.d or "DirEntry" in c.d)]
+        nsm += len(md)
+        sl = [c for c in md if c.d.split("::")[-1] == "symlink_metadata"]
+        rep.examined(R154, p_, sample={"metadata_calls": [c.d.split("::")[-1] for c in md]})
+        if sl:
+            rep.violation(R154, p_, "%s tests a path with symlink_metadata() (line %d); for a symbolic link that is the link's own length and kind, so a link with a short target string is dismissed as an empty or too small file "
+                          "although the same file is read when it is reached another way" % (p_.split("::")[-1], sl[0].line))
+    if nsm == 0:
+        raise CheckerError("R15.4: no metadata() calls found in the path handling functions")
 
     return rep.finish(
         "Static necessary-condition check of path expansion: the iterated jwalk walker is built with follow_links(true) and sort(true) and only "
